@@ -7,8 +7,10 @@
 #include "sim/runner.h"
 #include "engines/world.h"
 #include "engines/rng_fault.h"
+#include "engines/detrun.h"
 
 #include <ompl/control/PathControl.h>
+#include <ompl/control/PlannerData.h>
 #include <ompl/control/SimpleDirectedControlSampler.h>
 #include <ompl/control/SpaceInformation.h>
 #include <ompl/control/StatePropagator.h>
@@ -25,6 +27,7 @@
 #include <ompl/util/Exception.h>
 
 #include <cmath>
+#include <set>
 
 using sim::Json;
 using sim::fmt;
@@ -33,6 +36,7 @@ namespace oc = ompl::control;
 
 namespace
 {
+    bool g_oneshot = false;  // this process is one of the separately started runs of a C20 case
     const char *PLANNERS[] = {"RRT", "RRTi", "SST", "EST", "KPIECE1", "PDST", "SyclopRRT", "SyclopEST"};
 
     // ---- systems: closed-form one-step maps on raw coordinates ----------------------------------------------------
@@ -240,7 +244,8 @@ namespace
         std::shared_ptr<oc::RealVectorControlSpace> cs;
         std::shared_ptr<oc::SpaceInformation> csi;
         std::shared_ptr<Propagator> prop;
-        std::shared_ptr<world::Query> q;
+        std::shared_ptr<world::Query> q;  // current query
+        std::vector<std::shared_ptr<world::Query>> qs;
         std::vector<double> ulo, uhi;
         double stepSize = 0.1;
         unsigned minD = 1, maxD = 10;
@@ -273,20 +278,50 @@ public:
     }
     std::string crashContext(const Json &plan) const override
     {
-        return " planner=" + plan.gets("planner");
+        return " planner=control::" + plan.gets("planner");
     }
-    bool judgesCrashes(const sim::Options &) const override
+    bool judgesCrashes(const sim::Options &o) const override
     {
-        return false;  // the statement is about reported solutions; a crash of a control planner is counted (probe) and not judged here
+        return o.prop == "C03";  // "does not crash" is C03's clause; C02 / C20 judge what solve() reports (a crash is counted there)
     }
+    void atChildExit(Json &e) override
+    {
+        auto &l = world::ledger();
+        e["live_states"] = Json((long)l.live.size());
+        e["bad_frees"] = Json(l.badFrees);
+        e["allocs"] = Json(l.allocs);
+    }
+    void judgeExit(const sim::Options &o, const Json &plan, sim::CaseResult &r, const Json &e) override
+    {
+        if (o.prop != "C03" || e.isNull())
+            return;
+        std::string pl = plan.gets("planner");
+        r.info["live_states_at_exit"] = e["live_states"];
+        if (e.geti("bad_frees") > 0)
+            r.violate("C03.free-of-non-live-state planner=control::" + pl, fmt("%ld frees of states that were not live (double free / foreign state)", (long)e.geti("bad_frees")));
+        if (e.geti("live_states") > 0)
+            r.violate("C03.state-leak planner=control::" + pl, fmt("%ld of %ld allocated states still live at process exit, after all destructors ran",
+                                                                  (long)e.geti("live_states"), (long)e.geti("allocs")));
+    }
+    sim::CaseResult runCase(const sim::Options &o, const Json &plan);
 
     Json generate(const sim::Options &o, uint64_t caseSeed, long index) override
     {
-        sim::Rng g(caseSeed);
+        // C03 enumerates the cancellation index k of the first solve within a base case (fault enumeration)
+        long stride = o.thorough() ? 96 : 32;
+        long base = index, j = 0;
+        uint64_t seed = caseSeed;
+        if (o.prop == "C03")
+        {
+            base = index / stride;
+            j = index % stride;
+            seed = sim::mix(sim::mix(o.seed, "C03-ctrl-base"), (uint64_t)base);
+        }
+        sim::Rng g(seed);
         Json plan = Json::object();
         plan["kind"] = "ctrl";
         std::string only = o.get("planner");
-        std::string planner = only.empty() ? PLANNERS[(size_t)index % 8] : only;
+        std::string planner = only.empty() ? PLANNERS[(size_t)base % 8] : only;
         plan["planner"] = planner;
         static const char *systems[] = {"car", "unicycle", "dint", "point", "point"};
         std::string system = g.pick(systems);
@@ -319,7 +354,7 @@ public:
         };
         std::vector<std::vector<double>> keep;
         int ns = g.chance(0.8) ? 1 : 2;
-        for (int i = 0; i < ns + 1; i++)
+        for (int i = 0; i < ns + 3; i++)  // starts, goal, and start + goal of the second query (C03 histories)
             keep.push_back(rndPos());
         // obstacles: boxes, thin slabs, balls; end points stay free
         Json oj = Json::array();
@@ -412,9 +447,7 @@ public:
         plan["max_dur"] = minD + g.pick(std::vector<long>{0, 1, 4, 9, 19, 49});
         plan["k_ctrl"] = g.pick(std::vector<long>{1, 1, 2, 5, 10});
         plan["steer"] = system == "point" && g.chance(0.3);
-        // query
-        Json q = Json::object();
-        Json starts = Json::array();
+        // queries
         auto fullState = [&](const std::vector<double> &p) {
             Json s = Json::array();
             s.push(Json(p[0]));
@@ -431,30 +464,36 @@ public:
                     s.push(Json(g.real(lo, hi)));
             return s;
         };
-        for (int i = 0; i < ns; i++)
-            starts.push(fullState(keep[(size_t)i]));
-        q["starts"] = starts;
-        Json goal = Json::object();
-        double thr = L * g.pick(std::vector<double>{0.02, 0.05, 0.1, 0.2});
-        if (g.chance(0.5))
-        {
-            goal["type"] = "region";
-            Json c = Json::array();
-            c.push(Json(keep.back()[0]));
-            c.push(Json(keep.back()[1]));
-            goal["center"] = c;
-        }
-        else
-        {
-            goal["type"] = "state";
-            Json gs = Json::array();
-            gs.push(fullState(keep.back()));
-            goal["states"] = gs;
-            thr *= 2;
-        }
-        goal["threshold"] = thr;
-        q["goal"] = goal;
-        plan["query"] = q;
+        auto makeQ = [&](size_t first, int n, size_t goalIdx) {
+            Json q = Json::object();
+            Json starts = Json::array();
+            for (int i = 0; i < n; i++)
+                starts.push(fullState(keep[first + (size_t)i]));
+            q["starts"] = starts;
+            Json goal = Json::object();
+            double thr = L * g.pick(std::vector<double>{0.02, 0.05, 0.1, 0.2});
+            if (g.chance(0.5))
+            {
+                goal["type"] = "region";
+                Json c = Json::array();
+                c.push(Json(keep[goalIdx][0]));
+                c.push(Json(keep[goalIdx][1]));
+                goal["center"] = c;
+            }
+            else
+            {
+                goal["type"] = "state";
+                Json gs = Json::array();
+                gs.push(fullState(keep[goalIdx]));
+                goal["states"] = gs;
+                thr *= 2;
+            }
+            goal["threshold"] = thr;
+            q["goal"] = goal;
+            return q;
+        };
+        plan["query"] = makeQ(0, ns, (size_t)ns);
+        plan["query2"] = makeQ((size_t)ns + 1, 1, (size_t)ns + 2);
         // planner knobs
         Json pr = Json::object();
         if (g.chance(0.7))
@@ -482,17 +521,71 @@ public:
         plan["params"] = pr;
         plan["grid"] = g.pick(std::vector<long>{1, 2, 4, 8, 16});
         plan["ompl_seed"] = (long)g.range(1, 2000000000);
-        // history: 1-3 solves on the same planner instance (a later solve resumes), each cancelled at its k-th evaluation
         Json ops = Json::array();
-        int nops = g.chance(0.6) ? 1 : (int)g.range(2, 3);
-        for (int i = 0; i < nops; i++)
-        {
+        auto solve = [&](long k, bool mayFault) {
             Json op = Json::object();
             op["op"] = "solve";
-            op["k"] = (long)g.pick(std::vector<long>{0, 1, 2, 5, 20, 100, 500, 2000, 2000, o.thorough() ? 20000 : 5000});
-            if (g.chance(0.3))
+            op["k"] = Json(k);
+            if (mayFault && g.chance(0.3))
                 op["fault"] = rngfault::gen(g, 400);
             ops.push(op);
+        };
+        auto simple = [&](const char *n) {
+            Json op = Json::object();
+            op["op"] = n;
+            ops.push(op);
+        };
+        long budget = o.thorough() ? 20000 : 5000;
+        if (o.prop == "C03")
+        {
+            // k enumerated densely from 0; the last slots of the stride reach far beyond the first solution
+            long dense = stride - 8;
+            long k = j < dense ? j : (long)(dense * std::pow(1.7, (double)(j - dense + 1)));
+            solve(k, false);
+            // the rest of the history depends on the base case only
+            int n = (int)g.range(1, 5);
+            bool second = false;
+            for (int i = 0; i < n; i++)
+            {
+                double u = g.unit();
+                if (u < 0.35)
+                    solve(g.chance(0.5) ? g.range(0, 60) : g.range(60, budget / 2), false);
+                else if (u < 0.5)
+                    simple("getdata");
+                else if (u < 0.7)
+                {
+                    Json op = Json::object();
+                    op["op"] = "newquery";
+                    op["how"] = g.pick(std::vector<std::string>{"clear-then-set", "set-then-clear", "clearquery-then-set"});
+                    op["query"] = second ? 0L : 1L;
+                    ops.push(op);
+                    second = !second;
+                    solve(g.chance(0.3) ? g.range(0, 40) : g.range(40, budget / 2), false);
+                }
+                else if (u < 0.8)
+                {
+                    simple("clear");
+                    solve(g.range(0, budget / 2), false);
+                }
+                else
+                    simple("getdata");
+            }
+        }
+        else if (o.prop == "C20")
+        {
+            solve(g.chance(0.5) ? g.range(0, 300) : g.range(300, budget / 2), false);
+            if (g.chance(0.3))
+                solve(g.range(0, 500), false);
+            plan["perturb_seed"] = (long)g.range(1, 1000000000);
+            if (g.chance(0.04))
+                plan["ompl_seed"] = 0L;  // accepted with a warning ("Using 1 instead"): must reproduce like any other seed
+        }
+        else
+        {
+            // C02: 1-3 solves on the same planner instance (a later solve resumes), each cancelled at its k-th evaluation
+            int nops = g.chance(0.6) ? 1 : (int)g.range(2, 3);
+            for (int i = 0; i < nops; i++)
+                solve((long)g.pick(std::vector<long>{0, 1, 2, 5, 20, 100, 500, 2000, 2000, budget}), true);
         }
         plan["ops"] = ops;
         return plan;
@@ -588,7 +681,10 @@ public:
                 [k](const oc::SpaceInformation *si) { return std::make_shared<oc::SimpleDirectedControlSampler>(si, k); });
         c.csi->setup();
         c.w->si = c.csi;  // queries, goals are built on the control space information
-        c.q = world::makeQuery(c.w, plan["query"]);
+        c.qs.push_back(world::makeQuery(c.w, plan["query"]));
+        if (plan.has("query2"))
+            c.qs.push_back(world::makeQuery(c.w, plan["query2"]));
+        c.q = c.qs[0];
     }
 
     static ob::PlannerPtr makePlanner(Case &c, const Json &plan)
@@ -631,10 +727,9 @@ public:
 
     // the oracle: independent replay of a reported path
     static void judgePath(sim::CaseResult &res, Case &c, const std::string &planner, const oc::PathControl &path, bool approximate, double difference,
-                          const std::string &when, const char *form)
+                          const std::string &when, const char *form, const std::string &P = "C02")
     {
-        const std::string P = "C02";
-        std::string ctx = " planner=" + planner;
+        std::string ctx = std::string(" planner=") + (P == "C02" ? "" : "control::") + planner;
         auto &st = const_cast<oc::PathControl &>(path).getStates();
         auto &cs = const_cast<oc::PathControl &>(path).getControls();
         auto &du = const_cast<oc::PathControl &>(path).getControlDurations();
@@ -723,141 +818,9 @@ public:
 
     sim::CaseResult run(const sim::Options &o, const Json &plan) override
     {
-        sim::CaseResult res;
-        const std::string P = "C02";
-        std::string planner = plan.gets("planner");
-        ompl::RNG::setSeed((std::uint_fast32_t)plan.geti("ompl_seed", 1));
-        Case c;
-        buildCase(c, plan);
-        uint64_t h = 1469598103934665603ULL;
-        res.sig = "ctrl/" + planner + "/" + plan.gets("system") + (plan.getb("steer") ? "+steer" : "") + "/" + c.q->goalType + fmt("/o%zu/h%zu/d%ld-%ld/k%ld", plan["world"]["obstacles"].size(), plan["ops"].size(), (long)plan.geti("min_dur"), (long)plan.geti("max_dur"), (long)plan.geti("k_ctrl"));
-        if (!c.q->anyValidStart)
-        {
-            res.sig += "/no-valid-start";
-            res.info["input"] = "no valid start";
-        }
-        ob::PlannerPtr pl = makePlanner(c, plan);
-        pl->setProblemDefinition(c.q->pdef);
-        try
-        {
-            pl->setup();
-        }
-        catch (ompl::Exception &e)
-        {
-            res.probes["setup-refused(ompl::Exception)"]++;
-            res.info["setup"] = std::string(e.what());
-            res.trace = h;
-            return res;
-        }
-        long judged = 0, rngFaults = 0;
-        const auto &ops = plan["ops"].items();
-        c.w->cpuBudget = o.thorough() ? 15.0 : 4.0;
-        for (size_t oi = 0; oi < ops.size() && res.vclass.empty(); oi++)
-        {
-            const Json &op = ops[oi];
-            long k = op.geti("k", 100), evals = 0, after = 0;
-            bool fired = false;
-            ob::PlannerTerminationCondition ptc([&] {
-                if (fired)
-                {
-                    if (++after > 10000)
-                        throw StopSolve();
-                    return true;
-                }
-                if (evals++ >= k || ((evals & 63) == 0 && world::cpuSeconds() > c.w->cpuBudget))
-                    fired = true;
-                return fired;
-            });
-            bool f5 = rngfault::arm(op["fault"]);
-            c.w->validBudget = c.w->validCalls.load() + (o.thorough() ? 20000000 : 4000000);
-            world::ledger().cpuBudget = c.w->cpuBudget;
-            world::ledger().armed = true;
-            ob::PlannerStatus status;
-            std::string when = fmt("op %zu (solve cancelled at evaluation %ld%s)", oi, k, f5 ? ", extreme-draw burst" : "");
-            bool abandoned = false;
-            try
-            {
-                status = pl->solve(ptc);
-            }
-            catch (world::BudgetExhausted &)
-            {
-                abandoned = true;
-                res.probes["step-budget-exhausted"]++;
-            }
-            catch (StopSolve &)
-            {
-                abandoned = true;
-                res.probes["planner-ignored-termination-condition(10^4 evaluations after it fired)"]++;
-            }
-            catch (ompl::Exception &e)
-            {
-                abandoned = true;
-                res.probes["solve-threw-ompl::Exception(not judged)"]++;
-                res.info["exception"] = std::string(e.what());
-            }
-            c.w->validBudget = -1;
-            world::ledger().armed = false;
-            rngFaults += rngfault::disarm();
-            res.faults["F1-cancel-at-kth-ptc-evaluation"]++;
-            if (oi > 0)
-                res.faults["F10-resumed-solve"]++;
-            if (abandoned)
-            {
-                res.inconclusive = true;
-                sim::finishCaseNow(res);
-            }
-            h = sim::hashU64(h, (uint64_t)(ob::PlannerStatus::StatusType)status);
-            h = sim::hashU64(h, (uint64_t)evals);
-            bool reported = status == ob::PlannerStatus::EXACT_SOLUTION || status == ob::PlannerStatus::APPROXIMATE_SOLUTION;
-            if (reported && !c.q->pdef->hasSolution())
-            {
-                res.violate(P + ".status-reports-solution-without-path planner=" + planner, when + ": solve() returned " + status.asString() + " but the problem definition holds no solution");
-                break;
-            }
-            if (status == ob::PlannerStatus::EXACT_SOLUTION && c.q->pdef->hasApproximateSolution() && !c.q->pdef->hasExactSolution())
-            {
-                res.violate(P + ".exact-status-approximate-path planner=" + planner, when + ": solve() returned Exact solution but only an approximate path is recorded");
-                break;
-            }
-            if (c.q->pdef->hasSolution())
-            {
-                for (auto &sol : c.q->pdef->getSolutions())
-                {
-                    auto *pc = dynamic_cast<oc::PathControl *>(sol.path_.get());
-                    if (!pc)
-                    {
-                        res.violate(P + ".solution-is-not-a-control-path planner=" + planner, when + ": reported solution is not a PathControl");
-                        break;
-                    }
-                    judgePath(res, c, planner, *pc, sol.approximate_, sol.difference_, when, "as reported");
-                    judged++;
-                    for (auto *s : pc->getStates())
-                        h = c.w->hashState(h, s);
-                    for (double d : pc->getControlDurations())
-                        h = sim::hashDouble(h, d);
-                    if (sol.approximate_)
-                        res.probes["approximate-solutions-judged"]++;
-                    else
-                        res.probes["exact-solutions-judged"]++;
-                    if (!res.vclass.empty())
-                        break;
-                    // rider: the path split into single propagation steps is the same trajectory
-                    oc::PathControl ip(*pc);
-                    ip.interpolate();
-                    judgePath(res, c, planner, ip, sol.approximate_, sol.difference_, when, "after PathControl::interpolate()");
-                    if (!res.vclass.empty())
-                        break;
-                }
-            }
-        }
-        res.faults["F5-extreme-draw-burst(H1)"] += rngFaults;
-        res.probes["propagator-calls"] += c.prop->calls;
-        res.probes["steer-calls"] += c.prop->steers;
-        res.probes["paths-judged"] += judged;
-        res.nontrivial = judged > 0;
-        res.trace = h;
-        pl.reset();
-        return res;
+        if (o.prop == "C20" && !g_oneshot)
+            return detrun::runDet(o, plan, "ctrlsim", "control::" + plan.gets("planner") + "/" + plan.gets("system") + "/");
+        return runCase(o, plan);
     }
 
     std::string rule(const sim::Options &) const override
@@ -890,8 +853,282 @@ public:
     }
 };
 
+sim::CaseResult CtrlSim::runCase(const sim::Options &o, const Json &plan)
+{
+    sim::CaseResult res;
+    const std::string P = o.prop.empty() ? "C02" : o.prop;
+    const bool c03 = P == "C03", c20 = P == "C20";
+    std::string planner = plan.gets("planner");
+    std::string sfx = std::string(" planner=") + (P == "C02" ? "" : "control::") + planner;
+    ompl::RNG::setSeed((std::uint_fast32_t)plan.geti("ompl_seed", 1));
+    uint64_t h = 1469598103934665603ULL;
+    long judged = 0, rngFaults = 0;
+    std::set<std::string> outcomes, opKinds;
+    {
+        Case c;
+        buildCase(c, plan);
+        res.sig = "ctrl/" + planner + "/" + plan.gets("system") + (plan.getb("steer") ? "+steer" : "") + "/" + c.q->goalType +
+                  fmt("/o%zu/d%ld-%ld/k%ld", plan["world"]["obstacles"].size(), (long)plan.geti("min_dur"), (long)plan.geti("max_dur"), (long)plan.geti("k_ctrl"));
+        ob::PlannerPtr pl = makePlanner(c, plan);
+        pl->setProblemDefinition(c.q->pdef);
+        try
+        {
+            pl->setup();
+        }
+        catch (ompl::Exception &e)
+        {
+            res.probes["setup-refused(ompl::Exception)"]++;
+            res.info["setup"] = std::string(e.what());
+            res.trace = h;
+            return res;
+        }
+        const auto &ops = plan["ops"].items();
+        // C20 compares processes: only deterministic budgets there
+        c.w->cpuBudget = c20 ? 1e9 : (o.thorough() ? 15.0 : 4.0);
+        size_t cur = 0;
+        std::vector<const ob::State *> foreign;  // start / goal states of the previous query
+        for (size_t oi = 0; oi < ops.size() && res.vclass.empty(); oi++)
+        {
+            const Json &op = ops[oi];
+            std::string kind = op.gets("op", "solve");
+            opKinds.insert(kind);
+            world::Query &q = *c.q;
+            if (kind == "getdata")
+            {
+                oc::PlannerData d(c.csi);
+                pl->getPlannerData(d);
+                h = sim::hashU64(h, d.numVertices());
+                res.faults["F10-getPlannerData"]++;
+                continue;
+            }
+            if (kind == "clear" || kind == "newquery")
+            {
+                res.faults[kind == "clear" ? "F10-clear" : "F10-new-problem-definition"]++;
+                std::string how = op.gets("how", "clear");
+                size_t next = kind == "newquery" ? (size_t)op.geti("query") % c.qs.size() : cur;
+                if (how == "set-then-clear")
+                {
+                    pl->setProblemDefinition(c.qs[next]->pdef);
+                    pl->clear();
+                }
+                else if (how == "clearquery-then-set")
+                {
+                    pl->clearQuery();
+                    pl->setProblemDefinition(c.qs[next]->pdef);
+                }
+                else
+                {
+                    pl->clear();
+                    if (kind == "newquery")
+                        pl->setProblemDefinition(c.qs[next]->pdef);
+                }
+                foreign.clear();
+                if (next != cur)
+                {
+                    for (auto &s : c.qs[cur]->starts)
+                        foreign.push_back(s.get());
+                    for (auto &s : c.qs[cur]->goalStates)
+                        foreign.push_back(s.get());
+                }
+                // the new query starts from an empty problem definition, as a user who "switches to a new problem" has
+                c.qs[next]->pdef->clearSolutionPaths();
+                cur = next;
+                c.q = c.qs[cur];
+                continue;
+            }
+            // ---- solve -----------------------------------------------------------------------------------------
+            long k = op.geti("k", 100), evals = 0, after = 0;
+            bool fired = false;
+            ob::PlannerTerminationCondition ptc([&] {
+                if (fired)
+                {
+                    if (++after > 10000)
+                        throw StopSolve();
+                    return true;
+                }
+                if (evals++ >= k || ((evals & 63) == 0 && world::cpuSeconds() > c.w->cpuBudget))
+                    fired = true;
+                return fired;
+            });
+            bool f5 = rngfault::arm(op["fault"]);
+            const long stepBudget = o.thorough() ? 20000000 : 4000000;
+            c.w->validBudget = c.w->validCalls.load() + stepBudget;
+            world::ledger().cpuBudget = c.w->cpuBudget;
+            world::ledger().armed = !c20;
+            ob::PlannerStatus status;
+            std::string when = fmt("op %zu (solve cancelled at evaluation %ld%s)", oi, k, f5 ? ", extreme-draw burst" : "");
+            ob::PlannerSolution topBefore(nullptr);
+            bool had = q.pdef->getSolution(topBefore);
+            auto before = q.pdef->getSolutions();
+            try
+            {
+                status = pl->solve(ptc);
+            }
+            catch (world::BudgetExhausted &)
+            {
+                res.probes["step-budget-exhausted"]++;
+                res.inconclusive = true;
+                res.trace = h;
+                sim::finishCaseNow(res);
+            }
+            catch (StopSolve &)
+            {
+                if (c03)
+                    res.violate(P + ".unbounded-return" + sfx, when + ": solve() evaluated the termination condition 10^4 more times after it became true");
+                else
+                {
+                    res.probes["planner-ignored-termination-condition(10^4 evaluations after it fired)"]++;
+                    res.inconclusive = true;
+                }
+                res.trace = h;
+                sim::finishCaseNow(res);  // the planner was abandoned mid-solve: no teardown, no exit accounting
+            }
+            catch (ompl::Exception &e)
+            {
+                std::string msg = e.what();
+                if (c03)
+                {
+                    std::string key;
+                    for (char ch : msg.substr(0, 60))
+                        key += (isalnum((unsigned char)ch) ? ch : '_');
+                    res.violate(P + ".exception-from-solve" + sfx + " what=" + key, when + ": ompl::Exception: " + msg);
+                }
+                else
+                {
+                    res.probes["solve-threw-ompl::Exception(not judged)"]++;
+                    res.inconclusive = true;
+                }
+                res.info["exception"] = msg;
+                res.trace = h;
+                sim::finishCaseNow(res);
+            }
+            c.w->validBudget = -1;
+            world::ledger().armed = false;
+            rngFaults += rngfault::disarm();
+            if (fired)
+                res.faults["F1-cancel-at-kth-ptc-evaluation"]++;
+            if (oi > 0)
+                res.faults["F10-resumed-solve"]++;
+            h = sim::hashU64(h, (uint64_t)(ob::PlannerStatus::StatusType)status);
+            h = sim::hashU64(h, (uint64_t)evals);
+            h = sim::hashU64(h, (uint64_t)c.w->validCalls.load());
+            outcomes.insert(status.asString());
+            auto afterSols = q.pdef->getSolutions();
+            std::vector<ob::PlannerSolution> added;
+            for (auto &s : afterSols)
+            {
+                bool old = false;
+                for (auto &b : before)
+                    old = old || b.path_ == s.path_;
+                if (!old)
+                    added.push_back(s);
+            }
+            bool isSol = (bool)status, anyExact = false, anyApprox = false;
+            for (auto &s : afterSols)
+                (s.approximate_ ? anyApprox : anyExact) = true;
+            auto stt = (ob::PlannerStatus::StatusType)status;
+            if (isSol && afterSols.empty())
+                res.violate(P + ".status-reports-solution-without-path" + sfx, when + ": solve() returned " + status.asString() + " but the problem definition holds no solution");
+            else if (stt == ob::PlannerStatus::EXACT_SOLUTION && !anyExact)
+                res.violate(P + ".exact-status-approximate-path" + sfx, when + ": solve() returned Exact solution but only an approximate path is recorded");
+            else if (c03 && stt == ob::PlannerStatus::APPROXIMATE_SOLUTION && !anyApprox)
+                res.violate(P + ".status-approximate-without-approximate-solution" + sfx, when + ": status Approximate solution but the problem definition holds no approximate one");
+            else if (c03 && !isSol && !added.empty())
+                res.violate(P + ".non-solution-status-added-path" + sfx, when + ": status " + status.asString() + " but a solution path was added");
+            else if (c03 && stt == ob::PlannerStatus::INVALID_START && q.anyValidStart)
+                res.violate(P + ".status-invalid-start-with-valid-start" + sfx, when + ": status Invalid start although a valid in-bounds start state was given");
+            if (!res.vclass.empty())
+                break;
+            // every path now in the problem definition is replayed (C02's oracle; for C03 it is the "never reports an empty
+            // or half-built path" clause; C20 only hashes)
+            for (auto &sol : afterSols)
+            {
+                auto *pc = dynamic_cast<oc::PathControl *>(sol.path_.get());
+                if (!pc)
+                {
+                    res.violate(P + ".solution-is-not-a-control-path" + sfx, when + ": reported solution is not a PathControl");
+                    break;
+                }
+                for (auto *s : pc->getStates())
+                    h = c.w->hashState(h, s);
+                for (double d : pc->getControlDurations())
+                    h = sim::hashDouble(h, d);
+                judged++;
+                if (c20)
+                    continue;
+                judgePath(res, c, planner, *pc, sol.approximate_, sol.difference_, when, "as reported", P);
+                res.probes[sol.approximate_ ? "approximate-solutions-judged" : "exact-solutions-judged"]++;
+                if (!res.vclass.empty())
+                    break;
+                if (!c03)
+                {
+                    // rider: the path split into single propagation steps is the same trajectory
+                    oc::PathControl ip(*pc);
+                    ip.interpolate();
+                    judgePath(res, c, planner, ip, sol.approximate_, sol.difference_, when, "after PathControl::interpolate()", P);
+                    if (!res.vclass.empty())
+                        break;
+                }
+            }
+            if (c03 && res.vclass.empty())
+            {
+                // resume monotonicity under the problem definition's own ranking
+                ob::PlannerSolution topAfter(nullptr);
+                bool has = q.pdef->getSolution(topAfter);
+                if (had && !has)
+                    res.violate(P + ".resume-lost-solution" + sfx, when + ": the problem definition held a solution before this solve() and holds none now");
+                else if (had && has && topBefore < topAfter)
+                    res.violate(P + ".resume-worsened-top-solution" + sfx, when + ": the best solution after a continued solve() ranks worse than before");
+                // new-query isolation
+                for (auto &s : added)
+                {
+                    auto *pc = dynamic_cast<oc::PathControl *>(s.path_.get());
+                    if (!pc || !res.vclass.empty())
+                        continue;
+                    for (auto *x : pc->getStates())
+                        for (auto *f : foreign)
+                            if (res.vclass.empty() && c.w->ss->equalStates(x, f))
+                                res.violate(P + ".state-of-previous-query-in-path" + sfx, when + ": a path reported for the new query contains a start/goal state of the previous query");
+                }
+            }
+        }
+        res.probes["propagator-calls"] += c.prop->calls;
+        res.probes["steer-calls"] += c.prop->steers;
+        res.info["validity_calls"] = Json((long)c.w->validCalls.load());
+        pl.reset();
+    }
+    res.faults["F5-extreme-draw-burst(H1)"] += rngFaults;
+    res.probes["paths-judged"] += judged;
+    res.nontrivial = c20 ? true : (c03 ? !opKinds.empty() : judged > 0);
+    std::string oc_;
+    for (auto &x : outcomes)
+        oc_ += (oc_.empty() ? "" : "+") + x;
+    res.info["outcomes"] = oc_;
+    res.info["paths_judged"] = Json(judged);
+    if (c03)
+    {
+        std::string ks;
+        for (auto &x : opKinds)
+            ks += (ks.empty() ? "" : "+") + x;
+        res.sig += "/" + ks + "/" + oc_;
+    }
+    res.trace = h;
+    return res;
+}
+
 int main(int argc, char **argv)
 {
+    if (argc >= 3 && std::string(argv[1]) == "--oneshot")
+    {
+        g_oneshot = true;
+        rngfault::install();
+        return detrun::oneshot(argv[2], [](const Json &plan) {
+            CtrlSim e;
+            sim::Options o;
+            o.prop = "C20";
+            return e.runCase(o, plan);
+        });
+    }
     CtrlSim e;
     return sim::engineMain(e, argc, argv);
 }
